@@ -42,8 +42,13 @@ MISSING = [  # -> 1
 AI_BAD = [  # -> 3
     ("azure-key-only", {"CODEMODDER_AZURE_OPENAI_API_KEY": "k"}), ("azure-endpoint-only", {"CODEMODDER_AZURE_OPENAI_ENDPOINT": "https://e"}),
     ("llama-key-only", {"CODEMODDER_AZURE_LLAMA_API_KEY": "k"}), ("llama-endpoint-only", {"CODEMODDER_AZURE_LLAMA_ENDPOINT": "https://e"}),
+    # an empty value is an unset one: half a pair again
+    ("azure-key-empty-endpoint-set", {"CODEMODDER_AZURE_OPENAI_API_KEY": "", "CODEMODDER_AZURE_OPENAI_ENDPOINT": "https://e"}), ("azure-endpoint-empty-key-set", {"CODEMODDER_AZURE_OPENAI_API_KEY": "k", "CODEMODDER_AZURE_OPENAI_ENDPOINT": ""}),
+    ("llama-key-empty-endpoint-set", {"CODEMODDER_AZURE_LLAMA_API_KEY": "", "CODEMODDER_AZURE_LLAMA_ENDPOINT": "https://e"}), ("llama-endpoint-empty-key-set", {"CODEMODDER_AZURE_LLAMA_API_KEY": "k", "CODEMODDER_AZURE_LLAMA_ENDPOINT": ""}),
 ]
-AI_OK = [("ai-empty-values", {"CODEMODDER_AZURE_OPENAI_API_KEY": "", "CODEMODDER_AZURE_OPENAI_ENDPOINT": ""}), ("ai-unrelated", {"CODEMODDER_AZURE_OPENAI_API_VERSION": "2024-02-01"})]
+AI_OK = [("ai-empty-values", {"CODEMODDER_AZURE_OPENAI_API_KEY": "", "CODEMODDER_AZURE_OPENAI_ENDPOINT": ""}), ("ai-unrelated", {"CODEMODDER_AZURE_OPENAI_API_VERSION": "2024-02-01"}),
+         ("azure-key-empty-endpoint-absent", {"CODEMODDER_AZURE_OPENAI_API_KEY": ""}), ("azure-endpoint-empty-key-absent", {"CODEMODDER_AZURE_OPENAI_ENDPOINT": ""}),
+         ("llama-key-empty-endpoint-absent", {"CODEMODDER_AZURE_LLAMA_API_KEY": ""}), ("llama-both-empty", {"CODEMODDER_AZURE_LLAMA_API_KEY": "", "CODEMODDER_AZURE_LLAMA_ENDPOINT": ""})]
 UNWRITABLE = [("out-missing-parent", "{dir}/nodir/r.json"), ("out-is-directory", "{dir}"), ("out-under-a-file", "{dir}/afile/r.json")]
 INFO = ["--list", "--describe", "--version", "--help"]
 
